@@ -93,13 +93,13 @@ type c14item struct {
 }
 
 type c14 struct {
-	rc   *core.RunCtx
-	ev   *evaluator
-	p    c14P
-	dump *os.File
-	curOp string  // family of the group being run (C14_DUMP_OP filter)
-	subs [][]rune // strings of length <= 2 over the alphabet
-	one  [][]rune // strings of length <= 1
+	rc    *core.RunCtx
+	ev    *evaluator
+	p     c14P
+	dump  *os.File
+	curOp string   // family of the group being run (C14_DUMP_OP filter)
+	subs  [][]rune // strings of length <= 2 over the alphabet
+	one   [][]rune // strings of length <= 1
 }
 
 // ---------- observation ----------
